@@ -153,6 +153,10 @@ type amlObj struct {
 	PblkLen  uint8  `json:"pblklen,omitempty"`
 	SysLevel uint8  `json:"syslevel,omitempty"`
 	ResOrder uint16 `json:"resorder,omitempty"`
+
+	// pin (generator only): the object stays where it is declared, the lexical transformations
+	// do not move it out of its container
+	pin bool
 }
 
 // ---------------------------------------------------------------------------
